@@ -20,14 +20,14 @@ RULE = ("(a) all 15 built-in soils x 6 crops of different maximum rooting depth 
         "Non-trivial case: the profile was deepened, or has >=2 layers, or the initial water content is given by depth points; "
         "distinct = configuration hash.")
 ASSUMPTIONS = [
-    "initial water content is compared without a water table (the documented adjustments under a water table belong to C19)",
+    "a quarter of the cases have a (shallow) water table: the profile arrays are checked there too, the initial water content is compared only without a water table (its documented adjustments under a table belong to C19)",
     "texture soils: wilting point / field capacity / saturation within 0.0011 and Ksat within 0.1 % + 0.06 mm/day of the independent Saxton & Rawls values (the library rounds to 0.001 / 0.1)",
     "known finding F18a: compartment tops / bottoms / mid-depths are not recomputed after deepening; reported as KNOWN-FINDING for deepened profiles only (same relation on non-deepened profiles is a violation)",
     "non-termination of the deepening loop is detected by counting calls (no timeout)",
 ]
 BUDGET = {"quick": 1600, "thorough": 30000}
 EXHAUSTIVE_NOTE = "sub-space (a) (15 built-in soils x 6 crops, default compartments) is enumerated completely in every run"
-PROFILE = gen.profile(p_dz=0.6, p_custom_soil=0.55, p_soil_args=0.2, p_gw=0.0, p_override=0.6, p_fm=0.0, p_ffm=0.0, p_co2=0.0,
+PROFILE = gen.profile(p_dz=0.6, p_custom_soil=0.55, p_soil_args=0.2, p_gw=0.25, gw_shallow=True, p_override=0.6, p_fm=0.0, p_ffm=0.0, p_co2=0.0,
                       seasons=(1, 1), max_days=400, storms=(0, 0), dry_spells=(0, 0), temp_events=(0, 0),
                       iwc=(("FC", 1), ("WP", 1), ("SAT", 1), ("Pct", 2), ("Num", 2), ("Depth", 5)), irr=((0, 1),))
 FIXED_CROPS = ["PaddyRice", "Tef", "Tomato", "Wheat", "Maize", "AlfalfaGDD"]
@@ -173,7 +173,9 @@ def evaluate(cfg):
         return float(v)
 
     want = None
-    if iwc["method"] == "Layer":
+    if cfg.get("gw") is not None:
+        L.add("water_table(profile_only)")   # initial water content under a water table is C19's subject
+    elif iwc["method"] == "Layer":
         if sorted(int(x) for x in iwc["depth_layer"]) == list(range(1, nl + 1)):
             want = np.zeros(n)
             for k, v in zip(iwc["depth_layer"], iwc["value"]):
